@@ -261,14 +261,15 @@ func (g *refGen) pathExpr(rootRef string, x *rnode, methods bool) string {
 				}
 			}
 			e = fmt.Sprintf("%s.dict[%d]!", e, k)
+			afterCall = true
 			continue
 		}
 		if c.edge == "dict" {
 			m = true
 		}
 		e = g.step(e, c, m)
-		if m {
-			afterCall = true
+		if m || c.edge == "child" {
+			afterCall = true // also after a force-unwrap
 		}
 	}
 	return e
